@@ -82,8 +82,9 @@ c05_cfg!(run_kb1, kb1);
 c05_cfg!(run_kb1p1, kb1p1);
 c05_cfg!(run_gl2, gl2);
 c05_cfg!(run_gl2p1, gl2p1);
+c05_cfg!(run_kb5q1, kb5q1);
 
-pub const CONFIGS: [&str; 6] = ["kb4", "bb4", "kb1", "kb1p1", "gl2", "gl2p1"];
+pub const CONFIGS: [&str; 7] = ["kb4", "bb4", "kb1", "kb1p1", "gl2", "gl2p1", "kb5q1"];
 
 pub fn cfg_params(cfg: &str) -> (u64, usize, usize) {
     use p3_field::PrimeField64;
@@ -91,6 +92,7 @@ pub fn cfg_params(cfg: &str) -> (u64, usize, usize) {
         "kb4" => (p3_koala_bear::KoalaBear::ORDER_U64, 4, 8),
         "bb4" => (p3_baby_bear::BabyBear::ORDER_U64, 4, 8),
         "kb1" | "kb1p1" => (p3_koala_bear::KoalaBear::ORDER_U64, 1, 8),
+        "kb5q1" => (p3_koala_bear::KoalaBear::ORDER_U64, 5, 8),
         _ => (p3_goldilocks::Goldilocks::ORDER_U64, 2, 4),
     }
 }
@@ -102,6 +104,7 @@ pub fn run_cfg(cfg: &str, h: &History, recompose: bool, hash_seed: u64) -> Outco
         "kb1" => run_kb1(h, recompose, hash_seed),
         "kb1p1" => run_kb1p1(h, recompose, hash_seed),
         "gl2" => run_gl2(h, recompose, hash_seed),
+        "kb5q1" => run_kb5q1(h, recompose, hash_seed),
         _ => run_gl2p1(h, recompose, hash_seed),
     }
 }
@@ -154,7 +157,7 @@ pub fn minimise(cfg: &str, h: &History, recompose: bool, hs: u64, key: &str) -> 
 
 pub fn one_run(ctx: &Ctx, idx: u64, out: &mut RunOut) {
     let mut rng = Rng::new(ctx.seed, "C05", idx);
-    let cfg = CONFIGS[(idx % 6) as usize];
+    let cfg = CONFIGS[(idx % 7) as usize];
     let (order, d, rate) = cfg_params(cfg);
     for k in 0..8u64 {
         let h = chal::gen_history(&mut rng, order, d, rate, ctx.tier.pick(24, 40), true);
@@ -247,12 +250,12 @@ pub fn main(ctx: &Ctx) -> i32 {
         runs,
         Spec {
             level: "exploration",
-            rule: "seeded challenger histories of 1..24/40 operations (observe, observe_ext, sample, sample_ext, sample_bits(0..20), check_pow_witness(0..6 bits, valid witness ground natively or witness+1), clear; biased so that the input buffer crosses RATE, the output buffer drains exactly, observes follow partial drains, clear lands mid-buffer) in six configurations (KoalaBear/BabyBear D4 W16 Poseidon2, KoalaBear D1 W16 Poseidon2 and Poseidon1, Goldilocks D2 W8 Poseidon2 and Poseidon1), recompose table on/off, seeded hash order; every sampled target is tagged and compared with the native DuplexChallenger, plus one residual sample. distinct = distinct (config, recompose, input-buffer length, output-buffer length, op kind) states reached.",
+            rule: "seeded challenger histories of 1..24/40 operations (observe, observe_ext, sample, sample_ext, sample_bits(0..20), check_pow_witness(0..6 bits, valid witness ground natively or witness+1), clear; biased so that the input buffer crosses RATE, the output buffer drains exactly, observes follow partial drains, clear lands mid-buffer) in seven configurations (KoalaBear/BabyBear D4 W16 Poseidon2, KoalaBear D1 W16 Poseidon2 and Poseidon1, Goldilocks D2 W8 Poseidon2 and Poseidon1, KoalaBear quintic circuit with the base-field D1 W16 Poseidon2 challenger), recompose table on/off, seeded hash order; every sampled target is tagged and compared with the native DuplexChallenger, plus one residual sample. distinct = distinct (config, recompose, input-buffer length, output-buffer length, op kind) states reached.",
             exhaustive: false,
             assumptions: vec!["p3_challenger::DuplexChallenger is the reference model".into()],
             components_real: vec!["CircuitChallenger", "CircuitBuilder (perm NPO, recompose, decompositions)", "CircuitRunner", "Poseidon executors"],
             components_stub: vec![],
-            not_covered: vec!["width-24/32 permutations", "quintic extension challenger"],
+            not_covered: vec!["width-24/32 permutations"],
             extra: json!({}),
         },
     )
